@@ -1,3 +1,60 @@
-import PrimitivModel.Model.KernelsMove
+import PrimitivModel.Lemmas.MoveSpec
+import PrimitivModel.Lemmas.Adjoint
+/-
+C01 (kernel level) — each backward kernel of the family is the transpose of its
+forward kernel: for every upstream gradient `gy`, every `x` and a zero initial
+`gx`,   Σ_j (bw gy 0)_j * x_j  =  Σ_i gy_i * (fw x)_i   over any commutative
+semiring (so over ℝ), for all well-formed shapes, axis arguments and ids the
+front-ends accept.  Together with "bw ADDs into gx" (`scatterAdd_apply`: the
+result is `gx + bw gy 0`) this is the chain rule for a linear map.
+Proof pattern: the generic lemma `adjoint_of_same_idx` + "fw and bw visit the
+same (output, input) index pairs" per kernel.
+-/
 namespace Primitiv.C01.Move
+open Primitiv Primitiv.Move Primitiv.MoveShape Primitiv.View3 Finset
+
+variable {R : Type} [CommSemiring R]
+
+def zeroT (s : Shape) : Tensor R := ⟨s, fun _ => 0, .here⟩
+
+/-- pick_bw is the transpose of pick_fw -/
+theorem Adjoint.pick {x y gy g : Tensor R} {ids : List Nat} {dim : Nat} {raw : Nat → R} (hx : WF x.shape)
+    (hlen : ids.length < W) (hf : pickFw x ids dim raw = .ok y)
+    (hb : pickBw gy ids dim (zeroT x.shape) = .ok g) (hgy : gy.shape = y.shape) :
+    ∑ j ∈ range x.shape.size, g.data j * x.data j = ∑ i ∈ range y.shape.size, gy.data i * y.data i := by
+  unfold pickFw at hf
+  unfold pickBw at hb
+  cases hc : checkDevice x with
+  | error e => simp [hc, bind, Except.bind] at hf
+  | ok u =>
+  cases hF : Front.pickFw x.shape ids dim with
+  | error e => simp [hc, hF, bind, Except.bind] at hf
+  | ok p =>
+  obtain ⟨ys, m⟩ := p
+  simp only [hc, hF, bind, Except.bind] at hf
+  split at hf
+  · cases hf
+  obtain ⟨hfb, hall, rfl⟩ := runSet_inv hf
+  cases hc1 : checkDevice gy with
+  | error e => simp [hc1, bind, Except.bind] at hb
+  | ok u1 =>
+  cases hc2 : checkDevice (zeroT (R := R) x.shape) with
+  | error e => simp [hc1, hc2, bind, Except.bind] at hb
+  | ok u2 =>
+  cases hB : Front.pickBw gy.shape (zeroT (R := R) x.shape).shape ids dim with
+  | error e => simp [hc1, hc2, hB, bind, Except.bind] at hb
+  | ok mb =>
+  simp only [hc1, hc2, hB, bind, Except.bind] at hb
+  split at hb
+  · cases hb
+  obtain ⟨_, rfl⟩ := runAdd_inv hb
+  obtain ⟨_, _, _, _, hys, _, _, hm, _, hysz⟩ := Front.pickFw_plan hx hlen hF
+  have hgyw : WF gy.shape := by rw [hgy]; exact hys
+  obtain ⟨_, _, _, _, _, _, hmb, _, _⟩ := Front.pickBw_plan hgyw hx hlen hB
+  have hsw : mb = m.swap := by rw [hmb, hm]
+  subst hsw
+  have hon : m.WritesOnce := by
+    rw [hm]; exact (writesAll_of_id (size := ys.size) (fun _ => rfl) (by rw [pick_count, hysz])).2
+  exact adjoint_of_same_idx m m.swap gy.data x.data raw x.shape.size ys.size rfl (fun _ _ => rfl) (fun _ _ => rfl) hfb hall hon
+
 end Primitiv.C01.Move
